@@ -12,7 +12,8 @@ package main
 // small configurations, bounded exhaustive search (one-sided) for larger positions.
 // Failure classes: proven-but-not-won, disproven-but-won, proven-move-loses (prefixed with
 // attacker-not-mover- when the configured DFPN attacker is not the side to move, with finished-root- when the root is a
-// finished game), solver-panic, solver-no-result, reused-solver-wrong-verdict, reused-solver-panic.
+// finished game), solver-panic, solver-no-result, reused-solver-wrong-verdict, reused-solver-panic, reused-solver-wrong-disproven (the replayed
+// sequences of the repetition/table finding, judged by a depth-limited exhaustive search to the known distance).
 
 import (
 	"bytes"
@@ -56,6 +57,7 @@ type c06job struct {
 	hunt     bool
 	seq      []*tak.Position // kind "dfpnseq": one solver proves these in a row
 	seqG     []*retroGraph
+	seqWon   []int // "dfpnseq" of a known finding: the attacker wins call i's root within seqWon[i] plies (0: not known)
 	bigModel bool // follow-up run on a root where repetition was seen: larger model budget
 	rep      int  // DFPN: threefold repetitions met by this run
 	work     uint64
@@ -228,6 +230,21 @@ func (j *c06job) runSeq() {
 				one.work = 1 << 30
 			}
 			one.judge(fmt.Sprintf("@SEQ@ (call %d of the sequence)", i+1), r, att, l1)
+			if i < len(j.seqWon) && j.seqWon[i] > 0 {
+				// a replayed sequence of the finding "bounds that rest on a repetition cut were stored as facts": the
+				// attacker wins this root within seqWon[i] plies, confirmed here by a depth-limited exhaustive search
+				j.stats["known_sequence_calls_with_known_win"]++
+				if r.Result == prove.EvalFalse {
+					if c06wonWithin(p, att, j.seqWon[i]) {
+						fails = append(fails, fmt.Sprintf("ORACLE-FAIL reused-solver-wrong-disproven | %s (call %d of the sequence: %s) | %s | attacker %s wins within %d plies (depth-limited exhaustive search)",
+							in, i+1, ptn.FormatTPS(p), l1, attStr(att), j.seqWon[i]))
+					} else {
+						j.stats["known_sequence_distance_not_confirmed"]++
+					}
+				} else if r.Result == prove.EvalTrue {
+					j.stats["known_sequence_calls_proven"]++
+				}
+			}
 			for _, f := range one.out {
 				f = strings.Replace(f, "@SEQ@", in, 1)
 				// the same position on a fresh solver
@@ -1120,6 +1137,27 @@ func runC06(c *ctx) {
 	}
 	c.stat("long_lived_solver_streams", int64(longStreams))
 
+	// replay of the finding "a reused solver answers `disproven` for a won position": two calls on one solver, 3x3 with
+	// 3 stones + capstone; the first call meets repetitions, the second used to hit a bound that rested on a repetition
+	// cut of the first (notes/c06_ghi/poison_p3c1.out.txt lists 38 such sequences with their oracle distances)
+	knownSeqs := 0
+	for _, k := range c06knownSeqs {
+		j := &c06job{kind: "dfpnseq", modelOK: false, entries: k.entries, attacker: k.att}
+		for i, t := range []string{k.first, k.second} {
+			p, err := c06customTPS(tak.Config{Size: 3, Pieces: 3, Capstones: 1}, t)
+			if err != nil {
+				panic(err)
+			}
+			j.seq = append(j.seq, p)
+			j.seqG = append(j.seqG, nil)
+			j.seqWon = append(j.seqWon, []int{k.dist1, k.dist2}[i])
+		}
+		j.root = j.seq[0]
+		jobs = append(jobs, j)
+		knownSeqs++
+	}
+	c.stat("known_finding_sequences", int64(knownSeqs))
+
 	c06runJobs(c, jobs)
 
 	// follow-up: the roots on which a DFPN run met a threefold repetition are searched again by PN and DFPN in
@@ -1845,4 +1883,91 @@ func c06probe(c *ctx) {
 	}
 	fmt.Fprintf(os.Stderr, "size %d pieces %d caps %d: nodes %d edges %d  attractor W %d (max %d) B %d (max %d) root W %d B %d  %v\n",
 		sz, pc, cp, len(g.term), g.edges, in[0], mx[0], in[1], mx[1], g.dist[0][0], g.dist[1][0], time.Since(t0))
+}
+
+
+// ---------- the replayed sequences of the repetition/table finding ----------
+
+type c06knownSeq struct {
+	att           tak.Color
+	entries       int
+	first, second string // TPS, configuration 3x3 with 3 stones + 1 capstone
+	dist1, dist2  int    // the attacker wins within that many plies (retrograde oracle of the search agent)
+}
+
+var c06knownSeqs = []c06knownSeq{
+	{tak.White, 65536, "x,2,x/x,1,x/x2,22S 1 5", "x,22S,x/x,1,x/2,1,x 1 5", 0, 11},
+	{tak.White, 65536, "x,2,x/x,1,x/x2,22S 1 5", "22S,x2/x,1,x/2,1,x 2 5", 0, 12},
+	{tak.White, 65536, "x,2,x/x,1,x/x2,22S 1 5", "x2,22S/x,1,x/2,1,x 2 5", 0, 12},
+	{tak.White, 1024, "x2,22S/x,1,x/x,2,x 1 5", "1,12,x/22S,x2/x3 1 5", 0, 17},
+	{tak.White, 1024, "x2,22S/x,1,x/x,2,x 1 5", "x,1,1/22S,2,x/x3 2 5", 0, 18},
+	{tak.White, 65536, "x,1,x/x,2,22S/x3 1 5", "x3/1,1,22S/2,x2 1 5", 0, 11},
+	{tak.White, 65536, "x,121,x/x2,22S/x3 2 5", "x2,22S/1,1,x/2,x2 2 5", 0, 12},
+	{tak.Black, 65536, "x,1,x/x2,22/x2,11S 2 4", "x3/2,2,11S/1,x2 2 4", 0, 11},
+	{tak.Black, 65536, "x,1,x/2,2,x/x2,11S 1 5", "x3/2,2,x/1,x,11S 1 5", 0, 12},
+	{tak.Black, 65536, "x3/2,2,x/x,1,11S 1 5", "x2,11S/2,2,x/1,x2 1 5", 0, 12},
+}
+
+// c06customTPS: the position of a TPS string with the reserves of a non-default configuration
+func c06customTPS(cfg tak.Config, tps string) (*tak.Position, error) {
+	q, err := ptn.ParseTPS(tps)
+	if err != nil {
+		return nil, err
+	}
+	board := make([][]tak.Square, cfg.Size)
+	for y := 0; y < cfg.Size; y++ {
+		board[y] = make([]tak.Square, cfg.Size)
+		for x := 0; x < cfg.Size; x++ {
+			board[y][x] = q.At(x, y)
+		}
+	}
+	return tak.FromSquares(cfg, board, q.MoveNumber())
+}
+
+// c06wonWithin: `who` wins p within n plies (wn n p of coq/AndOr.v) - exhaustive, memoised on (position, remaining plies)
+func c06wonWithin(p *tak.Position, who tak.Color, n int) bool {
+	won := map[string]int{}  // least depth known to win
+	lost := map[string]int{} // largest depth known not to win, plus one
+	var rec func(p *tak.Position, n int) bool
+	rec = func(p *tak.Position, n int) bool {
+		if over, w := p.GameOver(); over {
+			return w == who
+		}
+		if n == 0 {
+			return false
+		}
+		k := retroKey(p)
+		if w, ok := won[k]; ok && w <= n {
+			return true
+		}
+		if f, ok := lost[k]; ok && n < f {
+			return false
+		}
+		var buf [256]tak.Move
+		res := p.ToMove() != who
+		for _, m := range p.AllMoves(buf[:0]) {
+			q, err := p.Move(m)
+			if err != nil {
+				continue
+			}
+			r := rec(q, n-1)
+			if p.ToMove() == who && r {
+				res = true
+				break
+			}
+			if p.ToMove() != who && !r {
+				res = false
+				break
+			}
+		}
+		if res {
+			if w, ok := won[k]; !ok || n < w {
+				won[k] = n
+			}
+		} else if f, ok := lost[k]; !ok || n+1 > f {
+			lost[k] = n + 1
+		}
+		return res
+	}
+	return rec(p, n)
 }
